@@ -48,6 +48,12 @@ Definition is_letter (c : ascii) : bool :=
   let n := ascii_nat c in (Nat.leb 65 n && Nat.leb n 90) || (Nat.leb 97 n && Nat.leb n 122).
 Definition has_letter (s : string) : bool := negb (all_chars (fun c => negb (is_letter c)) s).
 
+Fixpoint count_char (c : ascii) (s : string) : nat :=
+  match s with EmptyString => 0 | String a r => (if Ascii.eqb a c then 1 else 0) + count_char c r end.
+(* a token whose brackets do not match cannot be read as a sequence of ints *)
+Definition unbalanced (s : string) : bool :=
+  negb (Nat.eqb (count_char "["%char s) (count_char "]"%char s)) || negb (Nat.eqb (count_char "("%char s) (count_char ")"%char s)).
+
 Definition arity_ok (arity : option nat) (items : list val) : bool :=
   match arity with None => true | Some k => Nat.eqb (List.length items) k end.
 
@@ -65,7 +71,7 @@ Definition spec_container (is_tup : bool) (e : ety) (arity : option nat) (t : to
   | Some LOther => UnspecDen
   | None => match e with
             | EStr => if plain_word (t_raw t) then wrap [VStr (t_raw t)] else UnspecDen
-            | EInt => if has_letter (t_raw t) then NoDen else UnspecDen
+            | EInt => if has_letter (t_raw t) || unbalanced (t_raw t) then NoDen else UnspecDen
             end
   end.
 
